@@ -29,7 +29,9 @@ def sh(cmd, timeout):
     try:
         p = subprocess.run(
             cmd, cwd=VERIF, capture_output=True, text=True, timeout=timeout,
-            env=dict(os.environ, PYTHONHASHSEED='0', PYTHONPATH=VERIF))
+            env=dict(os.environ, PYTHONHASHSEED='0', PYTHONPATH=os.pathsep.join(
+                [VERIF] + ([os.environ['VERIF_REPO']]
+                           if os.environ.get('VERIF_REPO') else []))))
         return p.stdout, p.stderr, p.returncode
     except subprocess.TimeoutExpired as e:
         return (e.stdout or ''), (e.stderr or ''), None
